@@ -12,7 +12,10 @@ KNOWN = set()
 RULE = ('Generated client generations: each opens 1-3 transports and runs a '
         'generated history (connects to accepted / refused / unserved '
         'namespaces, room changes, events with and without handlers, emits '
-        'with callbacks never answered, call() timing out, binary events '
+        'with callbacks never answered, call() timing out, leave_room / '
+        'close_room on personal rooms (own and others\'), a disconnect '
+        'handler closing the personal room, application calls on clients '
+        'that have already gone, binary events '
         'whose attachments never all arrive, malformed frames, namespace '
         'disconnects) and then ends every transport by a generated cause; '
         'fault plan: the k-th invocation of a connect / event / disconnect '
@@ -52,7 +55,11 @@ def strategy(tier):
         st.fixed_dictionaries({'op': st.just('enter'), 'c': ci,
                                'room': st.sampled_from(['r1', 'r2', 3])}),
         st.fixed_dictionaries({'op': st.just('leave'), 'c': ci,
-                               'room': st.sampled_from(['r1', 'r2', 3])}),
+                               'room': st.sampled_from(['r1', 'r2', 3,
+                                                        'SID'])}),
+        st.fixed_dictionaries({'op': st.just('close'), 'c': ci,
+                               'room': st.sampled_from(['r1', 'SID', 'SID',
+                                                        'OTHER'])}),
         st.fixed_dictionaries({'op': st.just('event'), 'c': ci,
                                'name': st.sampled_from(['a', 'a', 'z']),
                                'id': st.one_of(st.none(), st.integers(0, 9)),
@@ -68,6 +75,12 @@ def strategy(tier):
                                                  S.text_st(max_size=6))}),
         st.fixed_dictionaries({'op': st.just('cdisc'), 'c': ci}),
         st.fixed_dictionaries({'op': st.just('sdisc'), 'c': ci}),
+        # the application acts on a client of this generation that has
+        # already gone (a handler that was suspended meanwhile)
+        st.fixed_dictionaries({'op': st.just('late'), 'c': ci,
+                               'what': st.sampled_from(
+                                   ['enter', 'leave', 'emit_cb', 'session',
+                                    'disconnect', 'close'])}),
     )
     fault = st.one_of(
         st.none(),
@@ -77,6 +90,9 @@ def strategy(tier):
         'aio': st.booleans(),
         'async_handlers': st.booleans(),
         'always_connect': st.booleans(),
+        # the application's disconnect handler closes the client's personal
+        # room itself
+        'disc_closes_own': st.sampled_from([False, False, True]),
         'ntrans': st.integers(1, 3),
         'fault': fault,
         'ops': st.lists(op, min_size=3, max_size=14 if tier == 'quick'
@@ -101,8 +117,16 @@ def _mk_world(case):
         def on_connect(sid, environ, auth=None):
             hit('connect')
 
-        def on_disconnect(sid, reason):
-            hit('disconnect')
+        if case['aio']:
+            async def on_disconnect(sid, reason, ns=ns):
+                if case.get('disc_closes_own'):
+                    await sio.close_room(sid, namespace=ns)
+                hit('disconnect')
+        else:
+            def on_disconnect(sid, reason, ns=ns):
+                if case.get('disc_closes_own'):
+                    sio.close_room(sid, namespace=ns)
+                hit('disconnect')
 
         def on_a(sid, *args):
             hit('event')
@@ -161,6 +185,33 @@ def _generation(case, w, st_):
         if k == 'malformed':
             w.send_raw(t, op['text'])
             continue
+        if k == 'late':
+            gone = [i for i in range(c0, len(w.clients))
+                    if not w.clients[i]['alive']]
+            if not gone:
+                continue
+            g = w.clients[gone[op['c'] % len(gone)]]
+            what = op['what']
+            try:
+                if what == 'enter':
+                    w.do(sio.enter_room(g['sid'], 'late', namespace=g['ns']))
+                elif what == 'leave':
+                    w.do(sio.leave_room(g['sid'], 'r1', namespace=g['ns']))
+                elif what == 'emit_cb':
+                    w.do(sio.emit('q', 1, to=g['sid'], namespace=g['ns'],
+                                  callback=lambda *a: None))
+                elif what == 'session':
+                    w.do(sio.save_session(g['sid'], {'x': 1},
+                                          namespace=g['ns']))
+                elif what == 'close':
+                    w.do(sio.close_room(g['sid'], namespace=g['ns']))
+                else:
+                    w.do(sio.disconnect(g['sid'], namespace=g['ns']))
+            except (KeyError, ValueError):
+                pass    # acting on a departed client may be refused
+            flags.add('late_' + what)
+            w.h.settle()
+            continue
         lv = live()
         if not lv:
             continue
@@ -169,7 +220,23 @@ def _generation(case, w, st_):
         if k == 'enter':
             w.do(sio.enter_room(c['sid'], op['room'], namespace=c['ns']))
         elif k == 'leave':
-            w.do(sio.leave_room(c['sid'], op['room'], namespace=c['ns']))
+            room = c['sid'] if op['room'] == 'SID' else op['room']
+            w.do(sio.leave_room(c['sid'], room, namespace=c['ns']))
+            if op['room'] == 'SID':
+                flags.add('left_personal_room')
+        elif k == 'close':
+            room = op['room']
+            if room == 'SID':
+                room = c['sid']
+                flags.add('left_personal_room')
+            elif room == 'OTHER':
+                # the personal room of another live client
+                o = w.clients[lv[(op['c'] + 1) % len(lv)]]
+                if o['ns'] != c['ns']:
+                    continue
+                room = o['sid']
+                flags.add('left_personal_room')
+            w.do(sio.close_room(room, namespace=c['ns']))
         elif k == 'event':
             w.send(c['t'], wire.EVENT, c['ns'], op['id'],
                    [op['name']] + list(op['args']))
@@ -211,6 +278,16 @@ def _check_empty(w, what):
     sio = w.sio
     m = sio.manager
     ns_left = list(m.get_namespaces())
+    for ns in ns_left:
+        for room in list(m.rooms.get(ns, {})):
+            parts = list(m.rooms[ns][room])
+            if parts:
+                raise Violation('participants-left', '%s: %s %r: %r'
+                                % (what, ns, room, parts))
+    if ns_left:
+        raise Violation('namespaces-left', '%s: %r (rooms %r)'
+                        % (what, ns_left, {n: list(m.rooms[n])
+                                           for n in ns_left}))
     for c in w.clients:
         sid, ns = c['sid'], c['ns']
         if m.is_connected(sid, ns):
@@ -220,14 +297,6 @@ def _check_empty(w, what):
                             % (what, sid, sio.rooms(sid, namespace=ns)))
         if sio.get_environ(sid, namespace=ns) is not None:
             raise Violation('environ-left', '%s: sid %s' % (what, sid))
-    for ns in ns_left:
-        for room in list(m.rooms.get(ns, {})):
-            parts = list(m.get_participants(ns, room))
-            if parts:
-                raise Violation('participants-left', '%s: %s %r: %r'
-                                % (what, ns, room, parts))
-    if ns_left:
-        raise Violation('namespaces-left', '%s: %r' % (what, ns_left))
     cont = {'environ': sio.environ, '_binary_packet': sio._binary_packet,
             'manager.rooms': m.rooms, 'manager.callbacks': m.callbacks,
             'manager.pending_disconnect': m.pending_disconnect,
@@ -280,7 +349,10 @@ def check_case(case):
             labels[f] = True
         labels['nontrivial'] = bool(flags & {
             'partial_binary', 'unanswered_callback', 'fault_connect',
-            'fault_event', 'fault_disconnect'})
+            'fault_event', 'fault_disconnect', 'left_personal_room',
+            'late_enter', 'late_emit_cb', 'late_session'})
+        if case.get('disc_closes_own'):
+            labels['disc_closes_own'] = True
         return labels
     finally:
         w.close()
